@@ -91,6 +91,7 @@ type Scenario struct {
 	HookDelays map[string][]time.Duration
 	HookSeed   uint64
 	Tracing    bool // callers start their own spans (C18)
+	EndSpans   bool // a caller that owns its span ends it as soon as its call returns (as `defer span.End()` does)
 	// CtxHooks wraps every request context so that Err() passes through the "ctx.Err" hook point
 	// AFTER computing its answer: a context is arbitrary code and a goroutine may be preempted
 	// between a ctx.Err() check and what it does next; the delay widens exactly that window.
@@ -119,14 +120,13 @@ func (sc *Scenario) Describe() map[string]any {
 	}
 	sort.Strings(hd)
 	return map[string]any{"label": sc.Label, "signal": sc.Sig.String(), "config": sc.Cfg.String(), "requests": reqs, "export_latency": fmt.Sprint(sc.Latency),
-		"export_fail": fmt.Sprint(sc.Fail), "shutdown_mode": sc.Shutdown, "hook_delays": hd}
+		"export_fail": fmt.Sprint(sc.Fail), "shutdown_mode": sc.Shutdown, "hook_delays": hd, "callers_end_spans_on_return": sc.EndSpans}
 }
 
 // ---------------------------------------------------------------- data with unique ids
 
 type expect struct {
 	full string // JSON of (resource, scope, [metric descriptor,] item) in isolation
-	alt  string // metrics: the same without the metric Metadata map
 	req  string
 }
 
@@ -279,8 +279,7 @@ func build(sig Signal, spec *ReqSpec, r *rand.Rand) *Built {
 			}
 		}
 		b.M = md
-		forEachPoint(md, false, func(u, full string) { b.Expect[u] = expect{full: full, req: rid} })
-		forEachPoint(md, true, func(u, full string) { e := b.Expect[u]; e.alt = full; b.Expect[u] = e })
+		forEachPoint(md, func(u, full string) { b.Expect[u] = expect{full: full, req: rid} })
 	}
 	spec.items = len(b.UIDs)
 	return b
@@ -345,8 +344,8 @@ func forEachLog(ld plog.Logs, f func(uid, full string)) {
 }
 
 // forEachPoint calls f for every data point with the JSON of (resource, scope, metric descriptor, point).
-// stripMetadata removes the metric Metadata map (compared separately, reported only).
-func forEachPoint(md pmetric.Metrics, stripMetadata bool, f func(uid, full string)) {
+// The descriptor includes the metric's Metadata map.
+func forEachPoint(md pmetric.Metrics, f func(uid, full string)) {
 	for i := 0; i < md.ResourceMetrics().Len(); i++ {
 		rm := md.ResourceMetrics().At(i)
 		for j := 0; j < rm.ScopeMetrics().Len(); j++ {
@@ -365,9 +364,7 @@ func forEachPoint(md pmetric.Metrics, stripMetadata bool, f func(uid, full strin
 					dm.SetName(m.Name())
 					dm.SetDescription(m.Description())
 					dm.SetUnit(m.Unit())
-					if !stripMetadata {
-						m.Metadata().CopyTo(dm.Metadata())
-					}
+					m.Metadata().CopyTo(dm.Metadata())
 					put(dm)
 					b, _ := mJSON.MarshalMetrics(tmp)
 					f(uidOf(attrs), string(b))
